@@ -69,6 +69,33 @@ CLAIMS["C01"] = (
     "DESIGN.md §5 C01",
 )
 
+CLAIMS["C05"] = (
+    "PARTIAL. Lean, for EVERY list of repair attempts, shell list and outcome of the norm tests: the cascade returns "
+    "attempt j iff j is the first applicable attempt, in the code's order, whose norm test passes (cascade_first); "
+    "LoadError iff none passes; every executed test is an applicable attempt. For the cascade of the CURRENT source "
+    "(order, guards, tested/stored variables, warnings extracted by an ast walk of _fix_molden_from_buggy_codes on every "
+    "run and tied to a reviewed reference by kernel evaluation): a file normalised as read is returned untouched without "
+    "warning; a warning is emitted iff a correction is stored, it names exactly the correction that was tested, and what "
+    "is stored is what was tested; warnings pairwise distinct. Correction tables (obtained by probing the six _fix_* "
+    "functions on every run): closed forms for ORCA / PSI4<=1.0 / Turbomole / CFOUR / PSI4<=1.3.2 (double-factorial "
+    "formulas in Molden order), all entries positive, ORCA and PSI4<=1.0 coincide exactly off the pure d-h shells (so an "
+    "s,p-only PSI4 file is legitimately 'ORCA'), ORCA conventions differ from Molden's by the listed signs only; both "
+    "kinds of fix are one operation, an invertible positive diagonal scaling that preserves the span (any field). "
+    "NOT proved (numerical): that for a file of vendor V the first passing attempt is V's. That part is searched: random "
+    "complete orthonormal wavefunctions x 8 vendor encodings written by an independent encoder x Molden(AU/Angs)/MKL x "
+    "thresholds must load as the true orbitals (L2 distance over the harness's own integrals), orthonormal w.r.t. the "
+    "returned basis, with exactly the expected LoadWarning; damaged files that no correction normalises must raise "
+    "LoadError; the real norm-test booleans and guards are compared with an independent evaluation; 35 repository "
+    "fixtures must keep their branch. Correspondence: recorded real booleans + shell types -> Lean cascade -> executed "
+    "tests, branch, warning, stored variant compared with the loader.",
+    "Lean 4 proof (induction over the decision list, decide over source-extracted skeleton and probed tables) + "
+    "model-vs-code correspondence + randomized search with an independent Gaussian-integral evaluator",
+    "Partial: norm tests are oracle booleans in the model; the right-branch-for-vendor claim is only searched. Trusted: "
+    "harness/vh/gto.py (own overlap/solid harmonics), the vendor encoders in harness/vh/vendorfiles.py. mo.kind/ncon "
+    "pre-checks and text scanning are not modelled.",
+    "DESIGN.md §5 C05",
+)
+
 NOT_YET = {}
 
 
